@@ -11,13 +11,16 @@
 package main
 
 import (
+	"encoding/json"
 	"fmt"
 	"math/rand"
 	"os"
 	"path/filepath"
+	"regexp"
 	"runtime"
 	"strings"
 	"sync"
+	"time"
 
 	"verif/harness/evid"
 	"verif/harness/fakelfs"
@@ -51,7 +54,7 @@ type ctx struct {
 	repoKey string // server repo name or "" for standalone
 	stand   bool
 	res     *caseResult
-	tag     string // known-trigger tag of this case ("" = none)
+	tag     string          // known-trigger tag of this case ("" = none)
 	allowed map[string]bool // oids exempt (allowincompletepush)
 	model   *histgen.Model
 	rmodel  *histgen.Model
@@ -156,13 +159,18 @@ func (c *ctx) remoteCommits() []string {
 
 func (c *ctx) localBranch() string { return c.g.Branches[c.r.Intn(len(c.g.Branches))] }
 
-func (c *ctx) newCommit(branch string) {
+func (c *ctx) newCommit(branch string) { c.newCommitN(branch, 1+c.r.Intn(3)) }
+
+func (c *ctx) newCommitN(branch string, n int) {
 	c.git("checkout", "checkout", "-q", branch)
-	n := 1 + c.r.Intn(3)
 	for i := 0; i < n; i++ {
 		b := make([]byte, 1+c.r.Intn(4000))
 		c.r.Read(b)
 		p := filepath.Join(c.g.Dir, fmt.Sprintf("new%d.bin", c.r.Intn(6)))
+		if n > 3 {
+			p = filepath.Join(c.g.Dir, fmt.Sprintf("bulk/n%d.bin", i))
+		}
+		os.MkdirAll(filepath.Dir(p), 0o755)
 		os.WriteFile(p, b, 0o644)
 	}
 	c.git("add", "add", "-A")
@@ -183,7 +191,17 @@ func runCase(run *evid.Run, idx int) *caseResult {
 		c.tag = "tracking-ref-not-backed-by-remote"
 	}
 	batch := []int{1, 2, 3, 100}[r.Intn(4)]
-	c.g = histgen.New(env, "work", run.Seed*7919+int64(idx), histgen.Options{Commits: 8 + r.Intn(8), Merges: true, Tags: true, TrackToggles: true, Symlinks: true, ExecBits: true, EmptyFiles: true})
+	faultMode := "nofault"
+	if !c.stand && idx%3 == 1 {
+		faultMode = []string{"put-503", "batch-429", "exhaust+batch-429", "exhaust+batch-429", "put-reset", "mixed"}[(idx/3+int(run.Seed%6+6))%6]
+	}
+	hopts := histgen.Options{Commits: 8 + r.Intn(8), Merges: true, Tags: true, TrackToggles: true, Symlinks: true, ExecBits: true, EmptyFiles: true}
+	if faultMode == "exhaust+batch-429" {
+		// many objects per push, so that a retried object shares its next batch with objects not yet sent
+		hopts.Commits = 18 + r.Intn(10)
+		hopts.TwoLFSPerCommit = true
+	}
+	c.g = histgen.New(env, "work", run.Seed*7919+int64(idx), hopts)
 	res.hist = c.g.Log
 	c.bare = env.InitBare("origin.git")
 	c.repoKey = "origin"
@@ -207,6 +225,108 @@ func runCase(run *evid.Run, idx int) *caseResult {
 		c.git("setup", "remote", "add", "backup", c.bare2)
 		c.git("setup", "config", "remote.backup.lfsurl", srv.Endpoint("backup"))
 	}
+	// transient server faults (http transport, one case in three): a push may then fail, but a push
+	// that reports success must still have left every object on the server
+	if faultMode != "nofault" {
+		retries := []int{1, 1, 2, 8}[r.Intn(4)]
+		if faultMode == "exhaust+batch-429" {
+			// an object that has used up its retry budget meets fresh objects in a batch call that fails
+			retries = 1
+			batch = 2 + r.Intn(2)
+			c.git("setup", "config", "lfs.transfer.batchsize", fmt.Sprint(batch))
+		}
+		c.git("setup", "config", "lfs.transfer.maxretries", fmt.Sprint(retries))
+		c.git("setup", "config", "lfs.transfer.maxretrydelay", "1")
+		var fmu sync.Mutex
+		fr := rand.New(rand.NewSource(r.Int63()))
+		puts := map[string]int{}
+		hit429 := map[string]bool{}
+		early := map[string]bool{}
+		totalPuts := 0
+		batches := 0
+		srv.SetHook(func(rq *fakelfs.Request) *fakelfs.Fault {
+			if faultMode == "exhaust+batch-429" && rq.Kind == "batch" {
+				// a slow batch endpoint: the back-off of a failed object (250 ms) ends while other objects are still waiting
+				time.Sleep(120 * time.Millisecond)
+			}
+			fmu.Lock()
+			defer fmu.Unlock()
+			if os.Getenv("VERIF_C03_DEBUG") != "" && strings.Contains(faultMode, os.Getenv("VERIF_C03_DEBUG")) {
+				b, _ := json.Marshal(rq.JSON["objects"])
+				fmt.Fprintf(os.Stderr, "HOOK case %d %s %s %.8s puts=%d %s\n", idx, rq.Kind, rq.Repo, rq.Oid, puts[rq.Oid], regexp.MustCompile(`"oid":"([0-9a-f]{6})[0-9a-f]*","size":\d+`).ReplaceAllString(string(b), "$1"))
+			}
+			switch rq.Kind {
+			case "storage-put":
+				puts[rq.Oid]++
+				n := puts[rq.Oid]
+				switch faultMode {
+				case "put-503":
+					if n <= 1+fr.Intn(2) && fr.Intn(3) > 0 {
+						run.Count("faults_put_503", 1)
+						return &fakelfs.Fault{Status: 503}
+					}
+				case "exhaust+batch-429":
+					// some objects fail until their retry budget is used up
+					if n == 1 && totalPuts < 1+int(idx/3)%2 {
+						early[rq.Oid] = true // an object of the case's very first batch: its retry meets objects not yet sent
+					}
+					totalPuts++
+					if n <= retries && early[rq.Oid] {
+						run.Count("faults_put_503", 1)
+						return &fakelfs.Fault{Status: 503}
+					}
+				case "put-reset":
+					if n == 1 && fr.Intn(2) == 0 {
+						run.Count("faults_put_reset", 1)
+						return &fakelfs.Fault{Reset: true}
+					}
+				case "mixed":
+					switch fr.Intn(6) {
+					case 0:
+						run.Count("faults_put_503", 1)
+						return &fakelfs.Fault{Status: 503}
+					case 1:
+						run.Count("faults_put_reset", 1)
+						return &fakelfs.Fault{Reset: true}
+					}
+				}
+			case "batch":
+				batches++
+				switch faultMode {
+				case "batch-429", "mixed":
+					if batches%3 == 2 {
+						run.Count("faults_batch_429", 1)
+						return &fakelfs.Fault{Status: 429}
+					}
+				case "exhaust+batch-429":
+					// the batch call that re-submits an exhausted object together with other objects fails (once per object)
+					var oids []string
+					if objs, ok := rq.JSON["objects"].([]any); ok {
+						for _, x := range objs {
+							if o, ok := x.(map[string]any); ok {
+								if oid, ok := o["oid"].(string); ok {
+									oids = append(oids, oid)
+								}
+							}
+						}
+					}
+					fire := false
+					for _, oid := range oids {
+						if puts[oid] >= retries && puts[oid] > 0 && !hit429[oid] && len(oids) > 1 {
+							hit429[oid] = true
+							fire = true
+						}
+					}
+					if fire {
+						run.Count("faults_batch_429", 1)
+						run.Count("faults_batch_429_with_exhausted_and_other_objects", 1)
+						return &fakelfs.Fault{Status: 429}
+					}
+				}
+			}
+			return nil
+		})
+	}
 	if up := env.Run(sbx.RunOpt{Dir: c.g.Dir}, "git-lfs", "update"); !up.OK() {
 		run.Infra("git lfs update failed: %s", up)
 	}
@@ -222,10 +342,20 @@ func runCase(run *evid.Run, idx int) *caseResult {
 	if twoRemotes {
 		rem = "2remotes"
 	}
-	res.class = fmt.Sprintf("%s/family-%s/batch%d/%s", mode, fam, batch, rem)
+	res.class = fmt.Sprintf("%s/family-%s/batch%d/%s/%s", mode, fam, batch, rem, faultMode)
 	kinds := map[string]bool{}
 
 	nsteps := 3 + r.Intn(4)
+	if faultMode == "exhaust+batch-429" {
+		// one push carrying many new objects, so that a retried object shares its next batch with objects not yet sent
+		b := c.localBranch()
+		kinds["bulk-commit"] = true
+		c.newCommitN(b, 10+r.Intn(8))
+		if c.git("push-bulk", "push", "origin", b).OK() {
+			res.pushes++
+			c.invariant(c.rmodel, c.remoteCommits(), "git push origin "+b+" (bulk commit)")
+		}
+	}
 	for s := 0; s < nsteps; s++ {
 		k := r.Intn(100)
 		switch {
@@ -479,7 +609,7 @@ func sortStrings(s []string) []string {
 func main() {
 	run := evid.New("C03", "exploration")
 	defer sbx.RemoveBase()
-	run.Rule = "seeded histories (histgen: branches, merges incl. octopus, orphan branches, tags, renames/copies/deletes, files moving in and out of LFS tracking, nested .gitattributes, symlinks, exec bits, empty files) pushed by seeded plans over {git push <branch>, --all, --tags, new commits, amended+forced, deleted refs, git lfs push <ref>, git lfs push --all, a second clone moving the remote branch, missing local object with/without lfs.allowincompletepush} x batch size {1,2,3,100} x {http fake server, file:// standalone remote}; family b re-points the remote to an empty server. Oracle: brute-force enumeration (git rev-list/ls-tree/cat-file with filters disabled + ptrspec) of every pointer in every commit reachable from the remote's refs vs the server store. Class = (transport, family, batch size, set of step kinds)."
+	run.Rule = "seeded histories (histgen: branches, merges incl. octopus, orphan branches, tags, renames/copies/deletes, files moving in and out of LFS tracking, nested .gitattributes, symlinks, exec bits, empty files) pushed by seeded plans over {git push <branch>, --all, --tags, new commits, amended+forced, deleted refs, git lfs push <ref>, git lfs push --all, a second clone moving the remote branch, missing local object with/without lfs.allowincompletepush} x batch size {1,2,3,100} x {http fake server, file:// standalone remote} x transient server faults in one http case out of three {PUT 503, PUT connection reset, batch 429, mixed, and the schedule "an object uses up its retry budget, then meets objects not yet sent in a batch call that fails" with a bulk commit and a slow batch endpoint}; family b re-points the remote to an empty server. Oracle: brute-force enumeration (git rev-list/ls-tree/cat-file with filters disabled + ptrspec) of every pointer in every commit reachable from the remote's refs vs the server store. Class = (transport, family, batch size, set of step kinds)."
 	run.Assumptions = []string{"family a: the fake server never loses objects and remote-tracking refs only change through push/fetch against the same server, so 'reachable from remote refs => on server' is an invariant every correct implementation maintains", "pointers are the canonical non-empty pointers found in any tree (the generator creates no look-alikes)", "git 2.39.5"}
 	n := run.N(40, 400)
 	workers := runtime.NumCPU()
@@ -500,6 +630,10 @@ func main() {
 						}
 					}()
 					res := runCase(run, i)
+					if d := os.Getenv("VERIF_C03_DEBUG"); d != "" && strings.Contains(res.class, d) {
+						b, _ := json.Marshal(firstN(res.steps, 100))
+						fmt.Fprintf(os.Stderr, "DEBUG case %d %s pushes=%d\n%s\n", res.idx, res.class, res.pushes, b)
+					}
 					run.Case(res.class, map[string]any{"case": res.idx, "class": res.class, "pushes": res.pushes, "objects_checked": res.checked, "history_ops": len(res.hist), "first_steps": firstN(res.steps, 6)})
 					run.Count("successful_pushes_checked", int64(res.pushes))
 				}()
